@@ -63,7 +63,9 @@ def compile_exprs(exprs, n_vars):
     return code
 
 
-CONTEXTS = {"stack": [], "consumed": ["PUSH 0", "MSTORE"], "twice": ["DUP1", "PUSH 20", "SSTORE"]}
+# "both": the result is both operands of ONE instruction (a renaming that stops at the first occurrence leaves the other dangling)
+CONTEXTS = {"stack": [], "consumed": ["PUSH 0", "MSTORE"], "twice": ["DUP1", "PUSH 20", "SSTORE"], "both": ["DUP1", "ADD"],
+            "bothstore": ["DUP1", "SSTORE"]}
 
 
 def rule_opcodes():
@@ -735,4 +737,16 @@ def f_mem_consuming(deltas=(0, 32)):
             out.append("DUP2 DUP2 %s %s SWAP1 POP" % (st, ld))
             out.append("PUSH %x %s PUSH %x %s PUSH %x %s" % (c, st, c + d, ld, c, ld))
             out.append("PUSH %x %s PUSH %x %s DUP2 ADD" % (c, st, c + d, ld))
+    return list(dict.fromkeys(out))
+
+
+def f_two_segments(ops=("SUB", "ADD", "LT", "AND", "SHL", "DIV")):
+    """two optimizable segments around a split instruction, both using the same opcodes (so that instruction ids such as
+    SUB_0 occur in both specifications): whatever a checker remembers about one sub-block must not leak into the next"""
+    out = []
+    for op in ops:
+        for op2 in (op, "SUB" if op != "SUB" else "ADD"):
+            for split in ("DUP2 DUP2 LOG1", "GAS POP", "DUP1 DUP3 LOG2", "DUP2 DUP2 SSTORE"):
+                for b in ("%s" % op2, "DUP3 %s" % op2, "DUP2 DUP2 %s SWAP1 POP" % op2, "DUP2 DUP2 %s DUP3 %s" % (op2, op)):
+                    out.append("DUP2 DUP2 %s %s %s" % (op, split, b))
     return list(dict.fromkeys(out))
